@@ -90,7 +90,18 @@ fn format_node<'source>(
             loop {
                 match chain_node {
                     ChainNode::Root(root) => {
-                        group = group.sub_group_start().node(*root);
+                        // A root that ends with a range operator needs to be wrapped in
+                        // parentheses, otherwise it would merge with a following '.' access.
+                        let root_ends_with_dot = matches!(
+                            ctx.node(*root).node,
+                            Node::RangeFrom { .. } | Node::RangeFull
+                        );
+                        group = group.sub_group_start();
+                        if root_ends_with_dot {
+                            group = group.char('(').node(*root).char(')');
+                        } else {
+                            group = group.node(*root);
+                        }
                     }
                     ChainNode::Id(id) => {
                         // The first id access can be allowed to stay on the start line when force
